@@ -277,6 +277,39 @@ func monC13(c *drv.Ctx) {
 		}
 	})
 	// (2) stale-tag trap: inside nested structs, a container field followed by other fields
+	// a caller's buffer that is used again: the same backing array, the same length, other content (the next
+	// message in a receive buffer, a value patched in place). Each conversion must describe the bytes it is given.
+	c.Stage("reused-buffer", c.Pick(4000, 100000), false, func(cs *drv.Case) {
+		r := cs.R
+		buf := make([]byte, 0, 512)
+		for round := 0; round < 3; round++ {
+			x := gen.I64(r)
+			str := gen.Bytes(r, 6)
+			fields := []ref.Field{{ID: 7, V: ref.Value{T: ref.I64, I: x}}, {ID: 9, V: ref.Value{T: ref.STRING, S: str}},
+				{ID: 11, V: ref.Value{T: ref.LIST, VT: ref.I32, Elems: []ref.Value{{T: ref.I32, I: int64(int32(x))}, {T: ref.I32, I: int64(round)}}}}}
+			var enc []byte
+			for _, f := range fields {
+				enc = append(ref.EncFieldBegin(enc, f.V.T, f.ID), f.V.Encode(nil)...)
+			}
+			buf = append(buf[:0], enc...) // same array, same length every round
+			got, err := uf.ConvertUnknownFields(buf)
+			if err != nil || len(got) != 3 {
+				cs.Fail("convert-error", M{"when": "reused buffer"}, M{"round": round, "err": errString(err), "fields": len(got)})
+				return
+			}
+			l, e1 := uf.UnknownFieldsLength(got)
+			out := make([]byte, l)
+			n, e2 := uf.WriteUnknownFields(out, got)
+			if e1 != nil || e2 != nil || n != len(enc) || !bytes.Equal(out, enc) {
+				cs.Fail("convert-stale-tree", M{"when": "reused buffer"}, M{"round": round, "input_hex": hexOf(enc), "written_hex": hexOf(out[:minInt(n, len(out))]),
+					"message": "the tree converted from a buffer that is used again (same array, same length, new content) does not write back to the bytes it was converted from"})
+				return
+			}
+		}
+		cs.Count(true, "reused", cs.Idx)
+		cs.C.Obs("conversions from a reused buffer", 3)
+	})
+
 	c.Stage("sibling-tags", 11*11*4, true, func(cs *drv.Case) {
 		i := cs.Idx
 		first := ref.KnownTypes[i%11]
